@@ -245,6 +245,7 @@ func runC12Once(c Case, st *Stats, fault *FaultSpec) (nw, ns int, fired bool, er
 			hasMergeStep = true
 		}
 	}
+	var ambiguous bool
 	compare := func(i int, what string) error {
 		om, ot := Observe(m, u, oo), Observe(tw, u, oo)
 		lastTwinObs = ot
@@ -260,11 +261,46 @@ func runC12Once(c Case, st *Stats, fault *FaultSpec) (nw, ns int, fired bool, er
 			if DiffObs(o1, om) == "" {
 				return nil
 			}
+			if ambiguous {
+				// The transaction in doubt was invisible in the process and is visible after the reopen (allowed), and a
+				// later transaction touched the same keys: what that one did was decided without seeing it (a ZRem of a
+				// member only the doubtful transaction had added was a no-op and logged nothing), so the state is that of
+				// neither twin although the doubtful transaction is visible entirely. No verdict.
+				st.Class("in-doubt-case-ended-without-verdict(later-transaction-touched-the-same-keys)", 1)
+				return errSkip
+			}
 			return fmt.Errorf("step %d (%s): after a sync error the state is neither without the transaction nor with all of it: vs without: %s || vs with: %s", i, what, d, DiffObs(o1, om))
 		}
 		return fmt.Errorf("step %d (%s): a transaction that must have no effect changed the database (twin without it VS main): %s", i, what, d)
 	}
 	blind := c.Extra["blind"] != nil && !hasMergeStep
+	// ambiguous: a transaction after the bad one writes to a key, list, set or sorted-set member the bad one writes to
+	ambiguous = false
+	{
+		var badToks []string
+		seenBad := false
+		for _, s := range c.Steps {
+			if s.K == "bad" {
+				seenBad = true
+				for _, op := range s.Ops {
+					badToks = append(badToks, touchTokens(op)...)
+				}
+				continue
+			}
+			if !seenBad || s.K != "tx" {
+				continue
+			}
+			for _, op := range s.Ops {
+				for _, a := range touchTokens(op) {
+					for _, b := range badToks {
+						if tokensMeet(a, b) {
+							ambiguous = true
+						}
+					}
+				}
+			}
+		}
+	}
 	// every run ends with a reopen and one more comparison ("both in the running process and after reopen")
 	for i, s := range append(append([]Step(nil), c.Steps...), Step{K: "reopen"}) {
 		switch s.K {
@@ -517,3 +553,44 @@ func runC12(c Case, st *Stats) error {
 func init() { register("C12", runC12) }
 
 func TestC12(t *testing.T) { runProperty(t, "C12", genC12(), runC12) }
+
+// touchTokens names what a write call touches: "kv|bucket|key", "l|bucket|key", "s|bucket|key", "z|bucket|member",
+// or "z|bucket|*" for calls that address members by rank or position.
+func touchTokens(op Op) []string {
+	if !isWrite(op.K) {
+		return nil
+	}
+	b, k := string(op.B), string(op.Key)
+	switch structOf(op.K) {
+	case "l":
+		return []string{"l|" + b + "|" + k}
+	case "s":
+		t := []string{"s|" + b + "|" + k}
+		if strings.HasPrefix(op.K, "smove") {
+			b2 := b
+			if strings.HasSuffix(op.K, "2") {
+				b2 = string(op.B2)
+			}
+			t = append(t, "s|"+b2+"|"+string(op.Key2))
+		}
+		return t
+	case "z":
+		if op.K == "zadd" || op.K == "zrem" {
+			return []string{"z|" + b + "|" + k}
+		}
+		return []string{"z|" + b + "|*"}
+	}
+	return []string{"kv|" + b + "|" + k}
+}
+
+func tokensMeet(a, b string) bool {
+	if a == b {
+		return true
+	}
+	for _, p := range [][2]string{{a, b}, {b, a}} {
+		if strings.HasSuffix(p[0], "|*") && strings.HasPrefix(p[1], strings.TrimSuffix(p[0], "*")) {
+			return true
+		}
+	}
+	return false
+}
